@@ -81,18 +81,25 @@ def indexBearing (l : List MEv) : Bool :=
     ∨ e.type = mds_DMFINISH ∨ e.type = mds_FINISH ∨ e.type = mds_JUMP ∨ (e.type = mds_FLG ∧ e.arg < 0x80)
     ∨ (mds_NOTE ≤ e.type ∧ e.type < mds_SLR)
 
-/-- which of the decidable residual hypotheses of `C09_full_partial` (`Spec/MdsFrag.fullPartialHyps`)
-the model's export of this request meets: `H=1`, or `H=0:<first one that fails>` -/
+/-- which of the decidable residual hypotheses of `C09_full_partial2` (`Spec/MdsFrag.fullHyps` and the size
+bound `exportSmall`, round 4) the model's export of this request meets: `H=1`, or `H=0:<first one that
+fails>`.  The fragment itself is a theorem now (`C09_writer_outputs_in_frag`); `fragB` is still
+evaluated, and a list outside the fragment while `platformFrag` holds would contradict the theorem
+(`H=0:frag-contradiction`). -/
 def hypsOf (inp : Input) : String :=
   match exportMds MdsData.Arith.float inp with
   | .error _ => "H=-"
   | .ok o =>
     let b := o.built
-    if fullPartialHyps inp.song b then "H=1"
+    let d := dataInfoOf o.data.st inp.platform
+    let fr := (b.trackList.map (·.2) ++ b.conv.subList).all MdsRead.fragB
+    if !platformFrag d then "H=0:platform"
+    else if !fr then "H=0:frag-contradiction"
+    else if fullHyps inp.song d b && exportSmall b o.data.st.bank inp.group.toUTF8.toList (pcmOf o.data) then "H=1"
     else if !decide ((inp.song.tracks.map (·.1)).Pairwise (· < ·)) then "H=0:unsorted"
     else if b.trackList.isEmpty then "H=0:notracks"
-    else if !(b.trackList.map (·.2) ++ b.conv.subList).all MdsRead.fragB then "H=0:frag"
-    else "H=0:len"
+    else if !(b.trackStreams ++ b.subStreams).all (·.length < 65536) then "H=0:len"
+    else "H=0:size"
 
 def judge (arg impl : String) : String :=
   match parseReq arg with
